@@ -347,7 +347,7 @@ def nonempty_guarded(fx, body, bb):
     return False
 
 
-def rule_zero(fx, rep):
+def rule_zero(fx, rep, rid="C19-ZERO"):
     ok = True
     n = 0
     methods = [b for b in fx.fn_bodies() if norm(b.name).startswith(TT + "::")]
@@ -369,13 +369,13 @@ def rule_zero(fx, rep):
                         and not b.raw.get("vis_pub", False)
                     how = f"every one of {len(callers)} call site(s) is under a non-emptiness test of the same table"
                 rep.obligation(good)
-                rep.sample({"rule": "C19-ZERO", "fn": b.name, "op": rv["op"], "divisor": show(den)[:80], "discharged": how if good else None})
+                rep.sample({"rule": rid, "fn": b.name, "op": rv["op"], "divisor": show(den)[:80], "discharged": how if good else None})
                 if not good:
                     ok = False
-                    rep.violation("C19-ZERO", f"C19-ZERO/{norm(b.name)}/{rv['op']}",
+                    rep.violation(rid, f"{rid}/{norm(b.name)}/{rv['op']}",
                                   f"`{b.name}` computes `{rv['op']}` by `{show(den)[:80]}` (the table length, 0 for the advertised minimum Hash=0) without a non-emptiness guard",
                                   {"fn": b.name, "file": b.file, "line": s.get("line")})
-    rep.rule("C19-ZERO", n, 1, ok, "integer Div/Rem by the table length guarded against an empty table")
+    rep.rule(rid, n, 1, ok, "integer Div/Rem by the table length guarded against an empty table")
 
 
 def rule_gen(fx, rep):
